@@ -334,8 +334,67 @@ func factTickerPeriodIsRetry() int {
 	return res
 }
 
+// Serve: the test of `shutdownRequested` that refuses a Serve call after Shutdown is a top-level statement BETWEEN the
+// top-level `s.mu.Lock()` and the top-level `s.mu.Unlock()` that ends the registration region - the model's
+// `serveEnter` (test, listener registration, count) is ONE step because it is one critical section; a test taken
+// before the lock lets Shutdown close the listeners in between, and the listener registered afterwards is never closed.
+// 1: so; 0: a top-level test of the flag exists before the lock / after the unlock and none inside; 2: anything else.
+func factServeFlagUnderLock() int {
+	_, f := parseRepoFile("server-packet.go")
+	fd := findFunc(f, "s", "Serve")
+	if fd == nil {
+		return 2
+	}
+	lock, unlock := -1, -1
+	var tests []int
+	for i, st := range fd.Body.List {
+		switch callName(st) {
+		case "s.mu.Lock":
+			if lock < 0 {
+				lock = i
+			}
+		case "s.mu.Unlock":
+			if unlock < 0 {
+				unlock = i
+			}
+		}
+		if ifs, ok := st.(*ast.IfStmt); ok {
+			found := false
+			ast.Inspect(ifs.Cond, func(n ast.Node) bool {
+				if c, ok := n.(*ast.CallExpr); ok && strings.HasPrefix(exprName(c.Fun), "atomic.Load") && len(c.Args) > 0 {
+					if u, ok := c.Args[0].(*ast.UnaryExpr); ok && exprName(u.X) == "s.shutdownRequested" {
+						found = true
+					}
+				}
+				return true
+			})
+			if ifs.Init != nil {
+				ast.Inspect(ifs.Init, func(n ast.Node) bool {
+					if se, ok := n.(*ast.SelectorExpr); ok && exprName(se) == "s.shutdownRequested" {
+						found = true
+					}
+					return true
+				})
+			}
+			if found {
+				tests = append(tests, i)
+			}
+		}
+	}
+	if lock < 0 || unlock < 0 || len(tests) == 0 {
+		return 2
+	}
+	for _, t := range tests {
+		if lock < t && t < unlock {
+			return 1
+		}
+	}
+	return 0
+}
+
 func init() {
 	factProbes = append(factProbes, func(f *factSet) {
+		f.nat("serveFlagUnderLock", factServeFlagUnderLock())
 		f.nat("tickerPeriodIsRetry", factTickerPeriodIsRetry())
 		f.nat("activeAddBeforeGo", factActiveAddBeforeGo())
 		f.nat("shutdownFlagUnderLock", factShutdownFlagUnderLock())
